@@ -29,3 +29,7 @@ func verifSkipInline(int) bool { return false }
 func verifBareSetpath() bool { return false }
 
 func verifSetpathBare(any, []any) any { return nil }
+
+func verifFreshConst() bool { return false }
+
+func verifFresh(v any) any { return v }
